@@ -58,5 +58,14 @@ let handle (toks : string list) : string =
   match toks with
   | "live" :: kpe :: chunks when Stdlib.String.length kpe = 3 ->
       res_str (live_run (flags kpe) (read_cmd_fixed http_parse) golive (Stdlib.List.map bytes_of_hex chunks))
+  | [("mvtf" | "mvte") as w; g; path] ->
+      (* mvtf: mvtFilterHTTPArgs on a path; mvte: the call site of handleInputCommand on msg.Args[0];
+         g = e (len(parts) != 4, the source) | b (len(parts) < 4) *)
+      let reject = if g = "b" then mvt_reject_below4 else mvt_reject_exact4 in
+      let p = bytes_of_hex (if path = "_" then "" else path) in
+      (match (if w = "mvtf" then mvt_filter reject p else mvt_entry reject p) with
+       | MPanic -> "P"
+       | MNo -> "N"
+       | MYes (k, z, x, y) -> Printf.sprintf "Y %s" (args_str [k; z; x; y]))
   | ["spec"; stream] -> res_str (live_spec (read_cmd_fixed http_parse) golive (bytes_of_hex stream))
   | _ -> "?unknown"
